@@ -34,7 +34,32 @@ ASSUMPTIONS = ['SQLite live (file database, timeout=0); PostgreSQL only as SQL t
 SHARDS = {'quick': 4, 'thorough': 16}
 MIN_EVALS = {'quick': 3000, 'thorough': 20000}
 CLASS_FLOORS = {'contended': 0.12, 'two_committed': 0.15, 'for_update': 0.35}
-EXCLUSIONS = {}
+
+
+def _stale_cache_after_commit(case, message):
+    """open finding C35-nonoptimistic-session-stale-after-commit: a serializable (or optimistic=False) session that goes on
+    after commit() in the middle of the db_session keeps its cached rows; reading them opens no transaction (another session
+    can change the row although the serializable session has 'read' it) and a later write is sent without any optimistic
+    check (non-optimistic sessions rely on the database transaction that ended at the commit), so the other session's
+    committed update is lost.  Needs such an actor with at least one operation after its mid-session commit()."""
+    culprits = []
+    for j, a in enumerate(case.get('actors', [])):
+        sess = a.get('session', {})
+        if not (sess.get('serializable') or sess.get('optimistic') is False):
+            continue
+        names = [op[0] for op in a['ops']]
+        if 'commit' in names and names.index('commit') < len(names) - 1:
+            culprits.append(j)
+    if not culprits:
+        return False
+    if message.startswith('E['):
+        import re
+        m = re.search(r'read in a serializable session by session (\d+)', message)
+        return bool(m) and int(m.group(1)) in culprits
+    return message.startswith('the final database')
+
+
+EXCLUSIONS = {'nonoptimistic_stale_after_commit': _stale_cache_after_commit}
 
 MANIFEST = {
     'text': 'Generated interleavings (operation granularity, deterministic scheduler) of a locking or serializable session with '
